@@ -169,7 +169,7 @@ func BuildSwitchMessage(r *rec.Rec) (util.Message, error) {
 		e.Header = of.NewOfp13Header()
 		e.Header.Type = of.Type_Error
 		e.Type, e.Code = r.U16("type"), r.U16("code")
-		e.Data = *util.NewBuffer(append([]byte(nil), r.Bytes("data")...))
+		e.Data = *util.NewBuffer(Own(r.Bytes("data")))
 		setXid(&e.Header, r)
 		e.Header.Length = e.Len()
 		return e, nil
@@ -178,7 +178,7 @@ func BuildSwitchMessage(r *rec.Rec) (util.Message, error) {
 		e.Header.Type = of.Type_Error
 		e.Code = r.U16("exp_type")
 		e.ExperimenterID = r.U32("experimenter")
-		e.Data = *util.NewBuffer(append([]byte(nil), r.Bytes("data")...))
+		e.Data = *util.NewBuffer(Own(r.Bytes("data")))
 		setXid(&e.Header, r)
 		e.Header.Length = e.Len()
 		return e, nil
